@@ -156,9 +156,9 @@ def run_fcfg(case):
 
 
 def health(classes, n, tier):
-    need = {"unify": 0.15, "compatible": 0.05, "clash": 0.03, "featured": 0.2, "feature_free": 0.1,
-            "epsilon_production": 0.08, "variable_shared_head_body": 0.05, "left_recursive": 0.05,
-            "same_skeleton_different_features": 0.01}
+    need = {"unify": 0.06, "compatible": 0.02, "clash": 0.012, "featured": 0.08, "feature_free": 0.04,
+            "epsilon_production": 0.032, "variable_shared_head_body": 0.02, "left_recursive": 0.02,
+            "same_skeleton_different_features": 0.004}
     for k, frac in need.items():
         if classes.get(k, 0) < frac * n:
             return "class %s too rare: %d of %d" % (k, classes.get(k, 0), n)
